@@ -232,6 +232,16 @@ def elementwise(e):
         return elementwise(e.args[0])
     if isinstance(e, ast.Call) and norm(e.func) == "map" and len(e.args) == 2 and isinstance(e.args[0], ast.Lambda) and len(e.args[0].args.args) == 1:
         return e.args[1], e.args[0].args.args[0].arg, e.args[0].body, False
+    if isinstance(e, ast.Call) and norm(e.func) == "map" and len(e.args) == 2 and not isinstance(e.args[0], ast.Lambda):
+        # map(F, IT) with a named function: one element per element; when IT is itself element-wise (map over X), the
+        # source iterable is the innermost one
+        inner = elementwise(e.args[1])
+        if inner is not None:
+            return inner[0], None, e, inner[3]
+        return e.args[1], None, e, False
+    if isinstance(e, ast.Call) and norm(e.func) in ("filter", "filterfalse") and len(e.args) == 2:
+        inner = elementwise(e.args[1])
+        return (inner[0] if inner is not None else e.args[1]), None, e, True
     if isinstance(e, (ast.ListComp, ast.GeneratorExp)) and len(e.generators) == 1:
         g = e.generators[0]
         return g.iter, g.target, e.elt, bool(g.ifs)
